@@ -600,18 +600,23 @@ fn g2_uncompressed_flags() {
     // first byte fully symbolic (flags + top bits of x.c1), last byte symbolic, everything else zero
     let b0: u8 = kani::any();
     let bl: u8 = kani::any();
+    // the top byte of one of the other three field elements (x.c0, y.c1, y.c0): no flag bits live there, all 8 bits are data
+    let bt: u8 = kani::any();
+    let which: u8 = kani::any();
+    kani::assume(which < 3);
     let mut bytes = [0u8; 192];
     bytes[0] = b0;
     bytes[191] = bl;
+    bytes[48 + 48 * which as usize] = bt;
     let enc = load_g2u(&bytes);
     let sc = if b0 & 0x80 != 0 {
         Cat::Compression
     } else if b0 & 0x40 != 0 {
-        if b0 & 0x3f == 0 && bl == 0 { Cat::OkInf } else { Cat::Information }
+        if b0 & 0x3f == 0 && bl == 0 && bt == 0 { Cat::OkInf } else { Cat::Information }
     } else if b0 & 0x20 != 0 {
         Cat::Information
-    } else if b0 & 0x1f > 0x1a {
-        Cat::Coordinate          // x.c1 = (b0 & 0x1f) * 2^376 >= q  (q = 0x1a01...)
+    } else if b0 & 0x1f > 0x1a || bt > 0x1a {
+        Cat::Coordinate          // a coordinate (b & mask) * 2^376 + small >= q  (q = 0x1a01...)
     } else {
         Cat::OkPoint
     };
@@ -627,9 +632,11 @@ common_stubs! { 98,
 fn g2_compressed_flags() {
     let b0: u8 = kani::any();
     let bl: u8 = kani::any();
+    let bt: u8 = kani::any();         // top byte of x.c0: all 8 bits are data
     let mut bytes = [0u8; 96];
     bytes[0] = b0;
     bytes[95] = bl;
+    bytes[48] = bt;
     unsafe {
         SQRT_SOME = kani::any();
         SQRT_Y2 = [[0u64; 6]; 2];
@@ -650,8 +657,8 @@ fn g2_compressed_flags() {
     let sc = if b0 & 0x80 == 0 {
         Cat::Compression
     } else if b0 & 0x40 != 0 {
-        if b0 & 0x3f == 0 && bl == 0 { Cat::OkInf } else { Cat::Information }
-    } else if b0 & 0x1f > 0x1a {
+        if b0 & 0x3f == 0 && bl == 0 && bt == 0 { Cat::OkInf } else { Cat::Information }
+    } else if b0 & 0x1f > 0x1a || bt > 0x1a {
         Cat::Coordinate
     } else if unsafe { !SQRT_SOME } {
         Cat::NotOnCurve
